@@ -313,7 +313,11 @@ func c18Frequency(c *caseCtx) {
 	counts := map[string]int{}
 	base := c.rng.Intn(1 << 20)
 	for s := 0; s < N; s++ {
-		g.M["biases"] = []interface{}{M{"name": "criteriaConcealment", "props": M{"referenceCriterionType": strategy, "newCriterionRandomSeed": base + s, "randomSeed": s}}}
+		key := "referenceCriterionType"
+		if s%2 == 1 {
+			key = "ReferenceCriterionType" // the README's spelling (property names are matched case-insensitively)
+		}
+		g.M["biases"] = []interface{}{M{"name": "criteriaConcealment", "props": M{key: strategy, "newCriterionRandomSeed": base + s, "randomSeed": s}}}
 		d := decide(g.body(), true)
 		c.count("evaluations", 1)
 		if !d.OK || len(d.Trace.Bias) != 1 {
